@@ -129,6 +129,13 @@ class Models:
             return ('unit',)
         if h in ('Duration', 'Instant'):
             return ('s', BV64)
+        if isinstance(fl, list) and fl and generic_args(ty) in (None, []):
+            # a plain struct all of whose fields are flat (e.g. gherkin::LineCol { line, col })
+            name = re.sub(r'<.*', '', ty).split('::')[-1]
+            cands = [d for (n_, rel), d in self.prog.tables.struct_field_types.items() if n_ == name and list(d) == list(fl)]
+            if len(cands) == 1 and all(sort_of(cands[0][f_].strip()) is not None for f_ in fl):
+                tys = [cands[0][f_].strip() for f_ in fl]
+                return ('tuple', [self.shape(t_) for t_ in tys], tys)
         raise Inconclusive('no flat shape for type %s' % ty)
 
     def flatten(self, ex, v, sh):
